@@ -1,5 +1,5 @@
 SPECIFICATION Spec
-CONSTANTS MaxRecs = 2 MaxCalls = 3 MaxRuns = 2 CommitBeforeReturn = TRUE TolerantVersionRead = TRUE
+CONSTANTS MaxRecs = 2 MaxCalls = 2 MaxRuns = 2 CommitBeforeReturn = TRUE TolerantVersionRead = TRUE
           AtomicUpgrade = TRUE Legacy = FALSE MaxBatches = 1 GateResetOnError = TRUE ReloadWait = 0 MaxDepth = 1 EnterKeepsPending = TRUE ParentFirst = TRUE
 CONSTANTS MaxVers = 2 TokenConflict = "replace" MaxFaults = 0 CommitErrorRaises = TRUE
 INVARIANT TypeOK
